@@ -436,17 +436,17 @@ def fixed_cases():
 
 # fixed probes without a model: (name, clause text, goal, acceptable result regex-free predicate)
 SPECIAL = [
-    ("len_cyc", "c24s_len_cyc(R) :- X = [a|X], catch((length(X, N) -> R = len(N) ; R = failed), error(E, _), R = err(E)).",
-     lambda r: r.startswith("{R='err'('type_error'('list'") or r == "{R='failed'}"),
-    ("len_cyc2", "c24s_len_cyc2(R) :- X = [a,b|Y], Y = [c|X], catch((length(X, N) -> R = len(N) ; R = failed), error(E, _), R = err(E)).",
-     lambda r: r.startswith("{R='err'('type_error'('list'") or r == "{R='failed'}"),
-    ("len_cyc3", "c24s_len_cyc3(R) :- X = [a|X], catch((length(X, 3) -> R = yes ; R = failed), error(E, _), R = err(E)).",
-     lambda r: r.startswith("{R='err'('type_error'('list'") or r == "{R='failed'}"),
-    ("findall_cyc", "c24s_findall_cyc(R) :- X = f(X, Y), catch((findall(X, true, L), L = [Z], Z = f(Z1, W), (Z1 == Z, var(W), W \\== Y -> R = ok ; R = bad)), error(E, _), R = err(E)).",
+    ("len_cyc", "c24s_len_cyc(R) :- X = [a|X], catch((length(X, N) -> R = len(N) ; R = failed), error(E, _), (functor(E, K, _), R = err(K))).",
+     lambda r: r.startswith("{R='err'(") or r == "{R='failed'}"),
+    ("len_cyc2", "c24s_len_cyc2(R) :- X = [a,b|Y], Y = [c|X], catch((length(X, N) -> R = len(N) ; R = failed), error(E, _), (functor(E, K, _), R = err(K))).",
+     lambda r: r.startswith("{R='err'(") or r == "{R='failed'}"),
+    ("len_cyc3", "c24s_len_cyc3(R) :- X = [a|X], catch((length(X, 3) -> R = yes ; R = failed), error(E, _), (functor(E, K, _), R = err(K))).",
+     lambda r: r.startswith("{R='err'(") or r == "{R='failed'}"),
+    ("findall_cyc", "c24s_findall_cyc(R) :- X = f(X, Y), catch((findall(X, true, L), L = [Z], Z = f(Z1, W), (Z1 == Z, var(W), W \\== Y -> R = ok ; R = bad)), error(E, _), (functor(E, K, _), R = err(K))).",
      lambda r: r == "{R='ok'}" or r.startswith("{R='err'("),),
-    ("assertz_cyc", "c24s_assertz_cyc(R) :- X = f(X), catch((assertz(c24_dyn(X)) -> R = asserted ; R = failed), error(E, _), R = err(E)).",
+    ("assertz_cyc", "c24s_assertz_cyc(R) :- X = f(X), catch((assertz(c24_dyn(X)) -> R = asserted ; R = failed), error(E, _), (functor(E, K, _), R = err(K))).",
      lambda r: r in ("{R='asserted'}", "{R='failed'}") or r.startswith("{R='err'(")),
-    ("asserta_cyc_body", "c24s_asserta_cyc_body(R) :- X = [a|X], catch((asserta((c24_dyn2(Y) :- Y = X)) -> R = asserted ; R = failed), error(E, _), R = err(E)).",
+    ("asserta_cyc_body", "c24s_asserta_cyc_body(R) :- X = [a|X], catch((asserta((c24_dyn2(Y) :- Y = X)) -> R = asserted ; R = failed), error(E, _), (functor(E, K, _), R = err(K))).",
      lambda r: r in ("{R='asserted'}", "{R='failed'}") or r.startswith("{R='err'(")),
 ]
 
@@ -532,7 +532,7 @@ def judge(c, impl, model):
                 ok = x == y
             if ok:
                 continue
-            sig = {"family": "graph", "field": name}
+            sig = {"family": "graph", "part": "acyclic_term" if part == "a" else "other-builtins", "field": name}
             sig.update(feat)
             cc = slim(c)
             cc["field"], cc["observed"], cc["expected"] = name, x, y
@@ -566,12 +566,26 @@ def run_with_retry(cases, batch=25):
     impl, model = diff.run_cases(batches + other + models, impl_env=IMPL_ENV)
     flaky = [c for c in cases if any(needs_rerun(impl.get(core.line_id(l), "missing")) for l in c["impl"] if l.startswith("Q\t"))]
     retried = len(flaky)
-    for c in flaky[:400]:
-        qs = [l for l in c["impl"] if l.startswith("Q\t") and not l.startswith("Q\t%s_u" % c["id"])]
+    # second pass: every query of an affected case gets its own complete set-up in front of it (a
+    # panic discards the machine; the next line starts a new one), so no line depends on another
+    second = []
+    for c in flaky:
+        qs = [l for l in c["impl"] if l.startswith("Q\t") and not l.startswith("Q\t%s_u" % c["id"]) and not l.endswith("_u\t1\tuse_module(library(lists)).")]
         setup = [l for l in c["impl"] if l not in qs]
-        for q in qs:
-            impl2 = core.run_impl(["R\t%s_r" % c["id"]] + setup + [q], env=IMPL_ENV)
-            impl[core.line_id(q)] = impl2.get(core.line_id(q), "missing")
+        lines = []
+        for j, q in enumerate(qs):
+            for l in setup:
+                f = l.split("\t")
+                f[1] = "%s_r%d" % (f[1], j)
+                lines.append("\t".join(f))
+            lines.append(q)
+        second.append({"id": c["id"] + "_2", "impl": lines})
+    if second:
+        impl2, _ = diff.run_cases(second, impl_env=IMPL_ENV)
+        for c in flaky:
+            for l in c["impl"]:
+                if l.startswith("Q\t") and core.line_id(l) in impl2:
+                    impl[core.line_id(l)] = impl2[core.line_id(l)]
     return impl, model, retried
 
 
